@@ -14,7 +14,9 @@ import (
 	"kv/exec"
 )
 
-const repoDir = "/repo"
+// repoDir is /repo; KV_REPO overrides it for experiments on a snapshot (never set by registered commands).
+var repoDir = "/repo"
+
 const modPath = "github.com/vapourismo/knx-go"
 
 var verifDir = "/verif"
